@@ -6,21 +6,21 @@ pub enum Cover { Inside, Outside, Band }
 
 /// Edge function of (a,b) at p, all in scaled integer units.
 #[inline]
-pub fn edge(a: (i64, i64), b: (i64, i64), p: (i64, i64)) -> i64 {
+pub fn edge(a: (i128, i128), b: (i128, i128), p: (i128, i128)) -> i128 {
     (b.0 - a.0) * (p.1 - a.1) - (b.1 - a.1) * (p.0 - a.0)
 }
 
 /// Classify pixel (i, j) (centre at (i+1/2, j+1/2) px) against triangle `t` (scaled integer coordinates).
 /// `band_px`: centres closer than this to an edge *line segment's supporting line* while not strictly
 /// decided are exempt; with exact arithmetic only |E| / (scale * |edge|) < band_px matters.
-pub fn classify(t: [(i64, i64); 3], scale: i64, i: i64, j: i64, band_px: f64) -> Cover {
+pub fn classify(t: [(i128, i128); 3], scale: i128, i: i128, j: i128, band_px: f64) -> Cover {
     let p = (i * scale + scale / 2, j * scale + scale / 2);
     let area = edge(t[0], t[1], t[2]);
     if area == 0 {
         // degenerate: no interior; centres (nearly) on the segment itself are on an edge => band
         let (x0, x1) = (t.iter().map(|v| v.0).min().unwrap(), t.iter().map(|v| v.0).max().unwrap());
         let (y0, y1) = (t.iter().map(|v| v.1).min().unwrap(), t.iter().map(|v| v.1).max().unwrap());
-        let slack = (band_px * scale as f64).ceil() as i64;
+        let slack = (band_px * scale as f64).ceil() as i128;
         if p.0 < x0 - slack || p.0 > x1 + slack || p.1 < y0 - slack || p.1 > y1 + slack { return Cover::Outside; }
         for k in 0..3 {
             let (a, b) = (t[k], t[(k + 1) % 3]);
